@@ -31,7 +31,7 @@ func init() {
 			"Not covered: which kinds the four entry points let through (C18/C03), malformed bounds (C13).",
 		Assume:  []string{"reflect.Value accessors and strconv.Atoi behave as documented", "64-bit int on the default configuration (linux/386 analysed in the thorough tier)"},
 		Trusted: []string{"go/types", "go/ssa", "specification table in c01_size.go (from README 4.2.1 and the property statement)"},
-		Run:     runC01,
+		Run:     func(c *Ctx) { runC01(c); base(c, "DECLARED", "STATE", "ALIAS", "LOOP", "TEXT") },
 	})
 }
 
@@ -215,7 +215,7 @@ func sizeCompare(in *Interp, op token.Token, m, b Tok) AVal {
 		cv, _ := isCstStr(a)
 		switch {
 		case cv == "float64":
-		case (cv == "int" || cv == "int64") && m.Name != "uint":
+		case (cv == "int" || cv == "int64") && m.Name != "uint" && m.Name != "float": // float -> int truncates, uint64 -> int64 wraps
 		case (cv == "uint" || cv == "uint64") && nonNegMeasure[m.Name]:
 		default:
 			return Sym{K: "lossy(" + m.Key() + ")", T: types.Typ[types.Bool]}
